@@ -1171,7 +1171,7 @@ def worker(args):
     env = {"cc": cc, "tools": tools, "libvsim": os.path.join(sdir, "libvsim.so"), "private_tmp": ptmp, "wid": "%02d" % int(wid), "sdir": sdir}
     out = {"runs": 0, "executions": 0, "events": 0, "viol": [], "inconclusive": 0, "hashes": set(), "nontrivial": 0, "fired": {}, "samples": [],
            "switches": 0, "interleaved_with_temps": 0, "private_tmp": ptmp, "by_tools": {}, "by_mode": {}, "ninv": {}, "classes": {}, "errors": [],
-           "children": 0, "real_crashes": 0, "exhausted": False}
+           "children": 0, "real_crashes": 0, "exhausted": False, "det_pairs": 0, "det_mismatch": 0}
     cache = {}
     if mode == "enum":
         scns = enumeration_scenarios()
@@ -1209,6 +1209,18 @@ def worker(args):
             continue
         out["runs"] += 1
         out["executions"] += 1 + (len(scn["invocations"]) if len(scn["invocations"]) > 1 else 0)
+        if mode != "enum" and out["det_pairs"] < opts.get("det_per_worker", 8):
+            # determinism of the simulation itself: the same scenario again, event log and outcome must be identical
+            try:
+                again = Machine(env, wdir, scn, list(range(len(scn["invocations"]))), scn["sched"]).run()
+                out["det_pairs"] += 1
+                if again["loghash"] != res["loghash"] or again["status"] != res["status"] or again["after"] != res["after"]:
+                    out["det_mismatch"] += 1
+                    a, b = res["log"], again["log"]
+                    k = next((i for i in range(min(len(a), len(b))) if a[i] != b[i]), min(len(a), len(b)))
+                    out["errors"].append("seed %s did not repeat: first difference at event %d: %r vs %r" % (seed, k, a[k:k + 1], b[k:k + 1]))
+            except Inconclusive:
+                pass
         out["events"] += res["events"]
         out["switches"] += res["context_switches"]
         out["interleaved_with_temps"] += res["interleaved_with_temps"]
@@ -1338,8 +1350,9 @@ def main(argv):
         seconds, total = 55, 10 ** 9
     else:
         seconds, total = 1200, 10 ** 9
-    opts = {}
-    agg = {"runs": 0, "executions": 0, "events": 0, "inconclusive": 0, "nontrivial": 0, "switches": 0, "interleaved_with_temps": 0, "children": 0, "real_crashes": 0}
+    opts = {"det_per_worker": 8 if tier == "quick" else 70}
+    agg = {"runs": 0, "executions": 0, "events": 0, "inconclusive": 0, "nontrivial": 0, "switches": 0, "interleaved_with_temps": 0, "children": 0, "real_crashes": 0,
+           "det_pairs": 0, "det_mismatch": 0}
     fired, by_tools, by_mode, ninv, classes = {}, {}, {}, {}, {}
     hashes = set()
     samples = []
@@ -1400,6 +1413,7 @@ def main(argv):
         "context_switches_between_invocations": agg["switches"],
         "switches_while_both_had_temporaries": agg["interleaved_with_temps"],
         "inconclusive_runs": agg["inconclusive"],
+        "determinism": {"scenarios_executed_twice": agg["det_pairs"], "mismatches": agg["det_mismatch"]},
         "by_tools": by_tools, "by_mode": by_mode, "invocations_per_scenario": ninv, "violation_classes_seen": classes,
         "single_failure_enumeration": {"scenarios": enum_info.get("scenarios", 0), "executed": enum_info.get("runs", 0), "exhaustive": bool(enum_info.get("complete")),
                                        "space": "42 command shapes x every pipeline step x {exit 1 at start, SIGSEGV at start, SIGKILL at 3rd event, write error on first output, "
